@@ -59,6 +59,7 @@ def run(ctx):
     traces = []
     procs = [(i, 0) + shard(i, 0) for i in range(nsh)]
     guard = 0
+    aborted = False
     while procs:
         i, start, p, out = procs.pop(0)
         try:
@@ -72,8 +73,16 @@ def run(ctx):
             ev = vf.read_ndjson(out)
             last = max([e["n"] for e in ev if "n" in e] + [start])
             guard += 1
-            if guard > 200:
-                raise vf.Inconclusive("too many worker restarts")
+            if guard > 60:
+                # inputs keep killing or hanging the workers: stop here and judge what was recorded (every start
+                # without its end is in the traces); the run is not complete, which only matters if nothing is found
+                aborted = True
+                for _, _, q, qout in procs:
+                    q.kill()
+                    q.communicate()
+                    traces.append(qout)
+                procs = []
+                break
             if p.returncode not in (4,):
                 ctx.log("worker %d died with exit %d after input %d: %s" % (i, p.returncode, last, " ".join((err or "").split())[-200:]))
             procs.append((i, last) + shard(i, last))
@@ -98,6 +107,8 @@ def run(ctx):
                 f.write(json.dumps(doc) + "\n")
             ctx.report("%s id=%s doc=%s %s" % (v["why"], sid, doc, e.get("detail", "")), replay_src=rp, tag="input",
                        key="%s" % v["why"])
+    if aborted and not ctx.violations:
+        raise vf.Inconclusive("too many worker restarts and no violation recorded")
     # containment, end to end
     e2e = 0
     if os.path.exists(keep) and os.path.getsize(keep) > 0:
